@@ -39,10 +39,10 @@ type Config struct {
 	Silence        []string
 	NoInit         []string
 	RunInit        []string
-	Summarize      []string // pure functions merged into ite-terms instead of forking
+	Summarize      []string          // pure functions merged into ite-terms instead of forking
 	Replace        map[string]string // function (full SSA name) -> harness function (name in the harness package) used instead
-	Stub           []string // functions (full SSA names) replaced by "return zero values"
-	Reach          []string // labels that must be reached
+	Stub           []string          // functions (full SSA names) replaced by "return zero values"
+	Reach          []string          // labels that must be reached
 	SolverMs       int
 	Workers        int
 	ExpectFail     bool // reachability twin: must be violated
